@@ -582,7 +582,7 @@ impl PageLoader {
         let bucket = loop {
             match load.probe_sequence.next(&self.meta_map) {
                 ProbeResult::Tombstone(_) => continue,
-                ProbeResult::Empty(_) => return false,
+                ProbeResult::Empty(_) | ProbeResult::Exhausted => return false,
                 ProbeResult::PossibleHit(bucket) => break BucketIndex(bucket),
             }
         };
@@ -678,6 +678,7 @@ fn allocate_bucket(
         }
         match probe_seq.next(&meta_map) {
             ProbeResult::PossibleHit(_) => continue,
+            ProbeResult::Exhausted => return None,
             ProbeResult::Tombstone(bucket) | ProbeResult::Empty(bucket) => {
                 meta_map.set_full(bucket as usize, probe_seq.hash);
                 return Some(BucketIndex(bucket));
@@ -701,12 +702,17 @@ struct ProbeSequence {
     hash: u64,
     bucket: u64,
     step: u64,
+    /// Total number of buckets probed so far.
+    probes: u64,
 }
 
 enum ProbeResult {
     PossibleHit(u64),
     Empty(u64),
     Tombstone(u64),
+    /// The whole probe sequence has been walked (it is periodic with a period of at most twice
+    /// the table size) without meeting an empty bucket, a tombstone or a possible hit.
+    Exhausted,
 }
 
 impl ProbeSequence {
@@ -716,12 +722,18 @@ impl ProbeSequence {
             hash,
             bucket: hash % meta_map.len() as u64,
             step: 0,
+            probes: 0,
         }
     }
 
     // probe until there is a possible hit or an empty bucket is found
     fn next(&mut self, meta_map: &MetaMap) -> ProbeResult {
         loop {
+            if self.probes >= 2 * meta_map.len() as u64 {
+                return ProbeResult::Exhausted;
+            }
+            self.probes += 1;
+
             // Triangular probing
             self.bucket += self.step;
             self.step += 1;
